@@ -188,6 +188,10 @@ def check_combinators(fx, rep, rule):
             def g(t):
                 if t[0] == "closure":
                     clos.add(t)
+                # the digit predicate as a named private function (`fn ends_number(b: &u8) -> bool`)
+                if t[0] == "fnref" and t[1] in fx.bodies and fx.bodies[t[1]]["krate"] == "proguard" and role_of(t[1]) not in COMB \
+                        and len(fx.bodies[t[1]].get("params") or []) == 1 and (fx.bodies[t[1]].get("output") or fx.bodies[t[1]].get("ret") or "bool") == "bool":
+                    clos.add(t)
                 return None
             for st, (k, v) in res:
                 fc.rewrite(v, g)
